@@ -313,8 +313,15 @@ pub fn compare_sets(sender: &OrSWotSet<2>, received: &OrSWotSet<2>) -> Result<()
         }
     }
     // one further operation on clones (sampled pairs; cloning a large set per probe is expensive)
-    let big = sv.live.len() + sv.dead.len() > 200;
-    let stride = if big { (keys.len() * probes.len() / 12).max(5) } else { 5 };
+    let entries = sv.live.len() + sv.dead.len();
+    let big = entries > 200;
+    let stride = if entries > 50_000 {
+        (keys.len() * probes.len() / 3).max(5)
+    } else if big {
+        (keys.len() * probes.len() / 12).max(5)
+    } else {
+        5
+    };
     for (i, k) in keys.iter().enumerate() {
         for (j, p) in probes.iter().enumerate() {
             if (i * probes.len() + j) % stride != 0 {
@@ -357,6 +364,63 @@ fn first_diff(a: &BTreeMap<u64, Stamp>, b: &BTreeMap<u64, Stamp>) -> Vec<String>
         }
     }
     out
+}
+
+// ---------------------------------------------------------------------------------------
+// Part `huge-states`: "for states of any size". 70 000 - 1 200 000 entries (1 - 20 MB on the wire), a third of
+// them optionally tombstoned by a second bulk stage, through the same transfer and the same comparison.
+
+pub struct Huge;
+
+impl Prop for Huge {
+    type Case = Case;
+
+    fn id(&self) -> &'static str {
+        "C19"
+    }
+
+    fn part(&self) -> &'static str {
+        "huge-states"
+    }
+
+    fn width(&self) -> usize {
+        12
+    }
+
+    fn breadcrumbs(&self) -> bool {
+        true
+    }
+
+    fn shrink_budget(&self) -> usize {
+        12
+    }
+
+    fn gen(&self, src: &mut Src) -> Case {
+        let n = *src.pick(&[70_000usize, 150_000, 300_000, 600_000, 1_200_000]);
+        let origins = 1 + src.below(40);
+        let base_secs = 60_000_000 + src.below64(10_000);
+        let mut build = vec![Build::Bulk { n, origins, base_secs, delete: false }];
+        if src.chance(1, 2) {
+            build.push(Build::Bulk { n: n / 3, origins, base_secs: base_secs + 100, delete: true });
+        }
+        let fetch_after = build.iter().map(|_| false).collect();
+        Case { build, fetch_after, keyspace: src.pick(&["ks", "k\u{e9}y"]).to_string() }
+    }
+
+    fn run(&self, case: &Case) -> Outcome {
+        e3::sim(1, 70_000_000, BTreeMap::new(), |_net| run(case))
+    }
+
+    fn describe(&self, case: &Case) -> Value {
+        Transfer.describe(case)
+    }
+
+    fn rule(&self) -> &'static str {
+        "sender states of 70 000 / 150 000 / 300 000 / 600 000 / 1 200 000 entries from 1-40 origins (about 1-20 MB on the wire), in half of \
+         the cases a third of the entries tombstoned by a second bulk stage, fetched with the real ReplicationClient::get_state from the \
+         real ReplicationService; same differential oracle as part get-state (live ids, tombstones, stamps, will_apply probe grid, one \
+         further operation on clones); non-trivial as in part get-state: tombstones present, >= 2 origins, both sources"
+    }
 }
 
 // ---------------------------------------------------------------------------------------
@@ -629,6 +693,7 @@ async fn run_under_writes(case: &UnderWritesCase) -> Outcome {
 pub fn parts() -> Vec<Box<dyn DynPart>> {
     vec![
         Box::new(Gen::new(Transfer, 6_000, 300_000)),
+        Box::new(Gen::new(Huge, 16, 400)),
         Box::new(Gen::new(Undecodable, 3_000, 100_000)),
         Box::new(Gen::new(UnderWrites, 60_000, 3_000_000)),
     ]
